@@ -323,14 +323,17 @@ class Ctx:
     def fail(self, label, detail=None):
         return self.check(False, label, detail)
 
-    def known(self, label, detail=None):
+    def known(self, label, detail=None, witness=None):
         """The path shows a defect listed in known_findings.jsonl: record one witness per exploration (it is replayed like any
         counterexample and printed as KNOWN-FINDING); the caller skips its assertions on this path."""
         label = "kf:" + label
         self.notes[label] = self.notes.get(label, 0) + (0 if self.replaying() else 1)
         if self.replaying() or any(v.label == label for v in self.violations):
             return
-        self._violation(label, self.get_model(), detail)
+        model = None
+        if witness is not None and self._check(witness):
+            model = self._last_model       # inputs on which the defect actually shows
+        self._violation(label, model or self.get_model(), detail)
 
     def _violation(self, label, model, detail):
         inputs = self.concretise_inputs(model)
